@@ -27,7 +27,7 @@ pub struct Proj {
     pub mode: String,
 }
 
-const FILE_POOL: &[&str] = &["src/lib.rs", "src/commands.rs", "src/main.rs", "src/commands/user.rs", "src/api/mod.rs", "src/models.rs", "src/util/io.rs", "src/commands/files.rs", "src/state.rs", "src/a.rs", "src/z.rs"];
+const FILE_POOL: &[&str] = &["src/lib.rs", "src/commands.rs", "src/main.rs", "src/commands/user.rs", "src/api/mod.rs", "src/models.rs", "src/util/io.rs", "src/commands/files.rs", "src/state.rs", "src/a.rs", "src/z.rs", "src/api/user.rs", "src/commands/mod.rs", "src/util/files.rs", "src/api/io.rs", "src/api/commands.rs"];
 const MAPPED: &[(&str, &str)] = &[("DateTime<Utc>", "string"), ("PathBuf", "string"), ("Uuid", "string"), ("Decimal", "number"), ("Url", "string")];
 
 fn gen_type(t: &mut Tape, structs: usize, mapped: &[(String, String)]) -> String {
@@ -394,6 +394,15 @@ pub fn check_rerun(t: &mut Tape, reruns: usize, stats: &mut Stats) -> Vec<Failur
     stats.label(&format!("rerun:path={}", path));
     stats.label(&format!("rerun:files={}", p.files.len()));
     stats.label(&format!("rerun:cmd_files={}", p.cmd_files));
+    {
+        let mut base: Vec<&str> = p.files.iter().map(|f| f.0.rsplit('/').next().unwrap_or("")).collect();
+        base.sort();
+        let n = base.len();
+        base.dedup();
+        if base.len() < n {
+            stats.label("rerun:same_named_files");
+        }
+    }
     stats.label(&format!("rerun:mappings={}", if p.mappings.is_empty() { "0" } else { ">=2" }));
     if p.cmd_files >= 2 {
         stats.nontrivial(&("rerun", &key));
